@@ -117,10 +117,11 @@ def main(seed, tier):
             dc = rng.choice(combos)
             pairs.append(pair_text(f"decoy{d}", dc[2], dc[0], rounds, rng.randbytes(8), dc[1], make_pair(rng, passphrase + "x", dc[2], dc[0], rounds, rng.randbytes(8), dc[1], rng.randbytes(CIPHERS[dc[0]]))))
         blob = make_pair(rng, passphrase, kdf, cipher, rounds, salt, mac, data_key)
-        pairs.append(pair_text("id/1=", kdf, cipher, rounds, salt, mac, blob))
+        match_at = rng.randrange(len(pairs) + 1)  # the matching pair is anywhere in the list, decoys (other passphrase, other MAC/cipher) around it
+        pairs.insert(match_at, pair_text("id/1=", kdf, cipher, rounds, salt, mac, blob))
         data_blob = seal(data_key, config_text(entries).encode(), mac, rng.randbytes(16))
         plain = plain if plain is not None else {".encoding": "UTF-8", "displayName": "vm"}
-        return plain, pairs, blob, data_blob
+        return plain, pairs, blob, data_blob, match_at
 
     lengths = list(range(0, 41)) + [47, 48, 49, 63, 64, 65, 200] if tier == "thorough" else [0, 7, 8, 14, 15, 16, 17, 31, 32, 33, 48, 100]
     round_set = [1, 2, 1000] if tier == "thorough" else [1, 3]
@@ -132,7 +133,7 @@ def main(seed, tier):
                 entries = gen_entries(rng, n)
                 pw = rng.choice(["password", "pässwörd", "p w", "x" * 70, ""])
                 salt = rng.randbytes(rng.choice([0, 1, 8, 16, 33]))
-                plain, pairs, blob, data_blob = build(combo, entries, pw, rounds, salt, n_decoys=rng.choice([0, 0, 1, 2]))
+                plain, pairs, blob, data_blob, match_at = build(combo, entries, pw, rounds, salt, n_decoys=rng.choice([0, 1, 2, 3]))
                 text = vmx_text(pairs, data_blob, plain)
                 rec = {"text": text, "passphrase": pw, "content_len": len(config_text(entries).encode())}
                 # (a) round trip
@@ -147,6 +148,11 @@ def main(seed, tier):
                 if after != expect:
                     fail("roundtrip", combo, f"unlocked entries differ: {sorted(set(after.items()) ^ set(expect.items()))[:4]}", rec)
                     continue
+                # (a') the same file unlocks again in the same process (no state kept between unlocks)
+                out2, _, after2 = attempt(text, pw)
+                evals += 1
+                if out2 != "ok" or after2 != expect:
+                    fail("repeat", combo, f"second unlock of the same file in one process: {out2}", rec)
                 # (b) wrong passphrase
                 out, before, after = attempt(text, pw + "!")
                 evals += 1
@@ -161,7 +167,7 @@ def main(seed, tier):
                                 alt = bytearray(b)
                                 alt[pos] ^= x
                                 if which == "pair":
-                                    t2 = vmx_text(pairs[:-1] + [pair_text("id/1=", combo[2], combo[0], rounds, salt, combo[1], bytes(alt))], data_blob, plain)
+                                    t2 = vmx_text(pairs[:match_at] + [pair_text("id/1=", combo[2], combo[0], rounds, salt, combo[1], bytes(alt))] + pairs[match_at + 1:], data_blob, plain)
                                 else:
                                     t2 = vmx_text(pairs, bytes(alt), plain)
                                 out, before, after = attempt(t2, pw)
@@ -171,7 +177,7 @@ def main(seed, tier):
                     if salt:
                         s2 = bytearray(salt)
                         s2[0] ^= 1
-                        t2 = vmx_text(pairs[:-1] + [pair_text("id/1=", combo[2], combo[0], rounds, bytes(s2), combo[1], blob)], data_blob, plain)
+                        t2 = vmx_text(pairs[:match_at] + [pair_text("id/1=", combo[2], combo[0], rounds, bytes(s2), combo[1], blob)] + pairs[match_at + 1:], data_blob, plain)
                         out, before, after = attempt(t2, pw)
                         evals += 1
                         if out == "ok" or after != before:
